@@ -2,6 +2,7 @@ package seqx
 
 import (
 	"fmt"
+	"sort"
 	"strconv"
 	"strings"
 
@@ -19,10 +20,15 @@ var (
 	cfgTimes = drv.Cfg{Times: true, Rollover: Roll2, Ver: 2}
 )
 
-func withVer(c drv.Cfg, v int) drv.Cfg { c.Ver = v; return c }
+func withVer(c drv.Cfg, v int) drv.Cfg     { c.Ver = v; return c }
+func withRoll(c drv.Cfg, r int64) drv.Cfg  { c.Rollover = r; return c }
+func withKeep(c drv.Cfg, k bool) drv.Cfg   { c.Keep = k; return c }
+func allIdx(v int) []drv.Cfg {
+	return []drv.Cfg{withVer(cfgBoth, v), withVer(cfgNone, v), withVer(cfgKeys, v), withVer(cfgTimes, v)}
+}
 
-// pub builds a publish letter of n messages: keys alternate a/b starting
-// with the parity of the next offset, times advance by dts (cyclic).
+// pub builds a publish letter of n messages: keys alternate a/b with the
+// parity of the offset, times advance by dts (cyclic, default +1).
 func pub(w *drv.World, n int, dts ...int) string {
 	var sp []string
 	for i := 0; i < n; i++ {
@@ -44,26 +50,15 @@ func liveOffsets(w *drv.World) []int64 {
 	return out
 }
 
-// lastSegmentLive returns the live offsets at or above the newest segment's base.
-func lastSegmentLive(w *drv.World) []int64 {
-	bases, _ := drv.SegVersions(w.Dir)
-	if len(bases) == 0 {
-		return nil
-	}
-	base := bases[len(bases)-1]
-	var out []int64
-	for _, m := range w.M.Live {
-		if m.Off >= base {
-			out = append(out, m.Off)
-		}
-	}
-	return out
-}
-
-// segmentLive returns the live offsets of the i-th segment (by base order).
+// segmentLive returns the live offsets of the i-th segment (by base order);
+// i < 0 counts from the newest.
 func segmentLive(w *drv.World, i int) []int64 {
 	bases, _ := drv.SegVersions(w.Dir)
-	if i >= len(bases) {
+	sort.Slice(bases, func(a, b int) bool { return bases[a] < bases[b] })
+	if i < 0 {
+		i += len(bases)
+	}
+	if i < 0 || i >= len(bases) {
 		return nil
 	}
 	lo := bases[i]
@@ -78,6 +73,11 @@ func segmentLive(w *drv.World, i int) []int64 {
 		}
 	}
 	return out
+}
+
+func numSegments(w *drv.World) int {
+	b, _ := drv.SegVersions(w.Dir)
+	return len(b)
 }
 
 func dedupe(ls []string) []string {
@@ -96,44 +96,379 @@ func delLetter(offs []int64) string { return "D:" + drv.JoinInts(offs) }
 
 func itoa(i int64) string { return strconv.FormatInt(i, 10) }
 
+func countKind(w *drv.World, kinds ...string) int {
+	n := 0
+	for _, l := range w.Hist {
+		k, _, _ := strings.Cut(l, ":")
+		for _, x := range kinds {
+			if k == x {
+				n++
+			}
+		}
+	}
+	return n
+}
+
 const maxMsgs = 8
 
-func coreLetters(w *drv.World) []string {
+func pubs(w *drv.World, max int, sizes ...int) []string {
 	var ls []string
-	ls = append(ls, "P:")
-	for n := 1; n <= 3; n++ {
-		if w.M.Next+int64(n) <= maxMsgs {
+	for _, n := range sizes {
+		if n == 0 {
+			ls = append(ls, "P:")
+		} else if w.M.Next+int64(n) <= int64(max) {
 			ls = append(ls, pub(w, n))
 		}
 	}
+	return ls
+}
+
+func singleDeletes(w *drv.World) []string {
+	var ls []string
 	for _, o := range liveOffsets(w) {
 		ls = append(ls, "D:"+itoa(o))
 	}
+	return ls
+}
+
+func coreLetters(w *drv.World) []string {
+	ls := pubs(w, maxMsgs, 0, 1, 2, 3)
+	ls = append(ls, singleDeletes(w)...)
 	if len(w.M.Live) > 1 {
 		ls = append(ls, delLetter(liveOffsets(w)))
 	}
-	if l := lastSegmentLive(w); len(l) > 1 && len(l) < len(w.M.Live) {
+	if l := segmentLive(w, -1); len(l) > 1 && len(l) < len(w.M.Live) {
 		ls = append(ls, delLetter(l))
 	}
 	ls = append(ls, "R:", "R:rec", "R:chk", "RX:all", "G:0", "S")
 	return dedupe(ls)
 }
 
+func tailLetters(w *drv.World) []string {
+	ls := pubs(w, maxMsgs, 0, 1, 2)
+	if n := len(w.M.Live); n > 0 {
+		ls = append(ls, "D:"+itoa(w.M.Live[n-1].Off), "D:"+itoa(w.M.Live[0].Off))
+		ls = append(ls, delLetter(liveOffsets(w)))
+	}
+	for i := 0; i < numSegments(w); i++ {
+		if l := segmentLive(w, i); len(l) > 0 {
+			ls = append(ls, delLetter(l))
+		}
+	}
+	ls = append(ls, "R:", "R:rec", "R:chk", "RX:all", "S")
+	return dedupe(ls)
+}
+
+func rollLetters(w *drv.World) []string {
+	ls := pubs(w, maxMsgs, 1, 2, 3)
+	ls = append(ls, singleDeletes(w)...)
+	ls = append(ls, "R:")
+	return ls
+}
+
+// inputs: every key/value shape, every time pattern
+var inputKeys = []int{2, 3, 11, 9, 10}
+var inputVals = []string{"n", "e", "L1", "L40", "L300"}
+
+func inputLetters(rec bool) func(w *drv.World) []string {
+	return func(w *drv.World) []string {
+		var ls []string
+		if w.M.Next < 5 {
+			for _, k := range inputKeys {
+				for _, v := range inputVals {
+					ls = append(ls, fmt.Sprintf("P:%d/1/%s", k, v))
+				}
+			}
+			for _, dt := range []string{"0", "-1", "z", "a-5", "a-9223372036854775808", "a9223372036854775807"} {
+				ls = append(ls, fmt.Sprintf("P:0/%s/u", dt))
+			}
+			ls = append(ls, "P:2/1/n,3/0/e,10/-1/L300")
+		}
+		ls = append(ls, singleDeletes(w)...)
+		ls = append(ls, "R:", "RX:all")
+		if rec {
+			ls = append(ls, "R:rec", "R:chk")
+		}
+		return ls
+	}
+}
+
+func distinctTimes(w *drv.World) []int64 {
+	seen := map[int64]bool{}
+	var out []int64
+	for _, m := range w.M.Live {
+		if !seen[m.T] {
+			seen[m.T] = true
+			out = append(out, m.T)
+		}
+	}
+	return out
+}
+
+func helperLetters(w *drv.World) []string {
+	ls := pubs(w, maxMsgs, 1, 2)
+	ls = append(ls, singleDeletes(w)...)
+	if len(w.M.Live) > 1 {
+		ls = append(ls, "DM:"+drv.JoinInts(liveOffsets(w)), "DMO:"+drv.JoinInts(liveOffsets(w)))
+		l := liveOffsets(w)
+		ls = append(ls, "DM:"+drv.JoinInts([]int64{l[0], l[len(l)-1]}))
+	}
+	if countKind(w, "TrO", "TrC", "TrS", "TrA", "CU", "CD", "CC") < 2 {
+		for _, o := range liveOffsets(w) {
+			ls = append(ls, "TrO:m,"+itoa(o+1))
+		}
+		for _, n := range []int{0, 1, len(w.M.Live) - 1} {
+			if n >= 0 {
+				ls = append(ls, "TrC:o,"+strconv.Itoa(n))
+			}
+		}
+		sb := w.SizeBounds()
+		if len(sb) > 3 {
+			ls = append(ls, "TrS:m,"+itoa(sb[len(sb)/2]), "TrS:m,"+itoa(sb[len(sb)-4]))
+		}
+		for _, t := range distinctTimes(w) {
+			ls = append(ls, "TrA:m,"+itoa(t), "CU:m,"+itoa(t), "CD:o,"+itoa(t))
+		}
+		ls = append(ls, "CC:1")
+	}
+	ls = append(ls, "G:0", "R:")
+	return dedupe(ls)
+}
+
+// collide (C09): keys with real hash collisions
+func collideLetters(w *drv.World) []string {
+	var ls []string
+	if w.M.Next < maxMsgs {
+		for _, k := range []int{4, 5, 2, 3, 6} {
+			ls = append(ls, fmt.Sprintf("P:%d/1/u", k))
+		}
+		ls = append(ls, "P:4/1/u,5/0/u")
+	}
+	ls = append(ls, singleDeletes(w)...)
+	ls = append(ls, "R:", "RX:all", "G:0")
+	return ls
+}
+
+// times (C10): non-decreasing times with equal runs across segment boundaries
+func timesLetters(w *drv.World) []string {
+	var ls []string
+	if w.M.Next+1 <= maxMsgs {
+		ls = append(ls, "P:0/0/u", "P:0/1/u")
+	}
+	if w.M.Next+2 <= maxMsgs {
+		ls = append(ls, "P:0/0/u,1/0/u", "P:0/0/u,1/1/u")
+	}
+	ls = append(ls, "P:")
+	ls = append(ls, singleDeletes(w)...)
+	ls = append(ls, "R:", "R:rec", "RX:all")
+	return ls
+}
+
+// del (C12)
+func delLetters(w *drv.World) []string {
+	ls := pubs(w, 6, 1, 2)
+	ls = append(ls, singleDeletes(w)...)
+	ls = append(ls, "R:", "RX:all", "G:0", "L")
+	return ls
+}
+
+func delLeaves(w *drv.World) []string {
+	var ls []string
+	n := int(w.M.Next) + 2 // offsets 0..Next+1
+	if n > 8 {
+		n = 8
+	}
+	for m := 0; m < 1<<n; m++ {
+		var s []int64
+		for i := 0; i < n; i++ {
+			if m&(1<<i) != 0 {
+				s = append(s, int64(i))
+			}
+		}
+		ls = append(ls, "DD:"+drv.JoinInts(s))
+	}
+	ls = append(ls, "D:-1", "D:-2", "D:-2,3", "D:-3", "D:-1,0")
+	live := liveOffsets(w)
+	for m := 1; m < 1<<len(live); m++ {
+		var s []int64
+		for i := range live {
+			if m&(1<<i) != 0 {
+				s = append(s, live[i])
+			}
+		}
+		ls = append(ls, "DM:"+drv.JoinInts(s), "DMO:"+drv.JoinInts(s))
+	}
+	return ls
+}
+
+// trim (C15)
+func trimLeaves(w *drv.World) []string {
+	var ls []string
+	modes := []string{"m", "o", "s"}
+	for _, md := range modes {
+		for _, b := range []int64{-2, -1} {
+			ls = append(ls, fmt.Sprintf("TrO:%s,%d", md, b))
+		}
+		for b := int64(0); b <= w.M.Next+1; b++ {
+			ls = append(ls, fmt.Sprintf("TrO:%s,%d", md, b))
+		}
+		for n := 0; n <= len(w.M.Live)+1; n++ {
+			ls = append(ls, fmt.Sprintf("TrC:%s,%d", md, n))
+		}
+		for _, s := range w.SizeBounds() {
+			ls = append(ls, fmt.Sprintf("TrS:%s,%d", md, s))
+		}
+		for _, t := range w.TimeQueries() {
+			ls = append(ls, fmt.Sprintf("TrA:%s,%d", md, t))
+		}
+	}
+	return ls
+}
+
+// kv (C16)
+func kvLetters(max int) func(w *drv.World) []string {
+	return func(w *drv.World) []string {
+		var ls []string
+		if w.M.Next < 7 {
+			for _, k := range []int{0, 1, 2} {
+				ls = append(ls, fmt.Sprintf("P:%d/1/u", k), fmt.Sprintf("P:%d/1/n", k))
+			}
+			ls = append(ls, "P:0/0/u", "P:0/0/n")
+		}
+		ls = append(ls, singleDeletes(w)...)
+		ls = append(ls, "R:")
+		if countKind(w, "CU", "CD", "CC") < max {
+			for _, t := range w.TimeQueries() {
+				for _, md := range []string{"s", "m", "o"} {
+					ls = append(ls, fmt.Sprintf("CU:%s,%d", md, t), fmt.Sprintf("CD:%s,%d", md, t))
+				}
+			}
+			ls = append(ls, "CC:0", "CC:1", "CC:2")
+		}
+		return ls
+	}
+}
+
+// versions (C17)
+func versionLetters(w *drv.World) []string {
+	ls := pubs(w, 6, 1, 2)
+	ls = append(ls, singleDeletes(w)...)
+	for _, v := range []string{"v1", "v2"} {
+		for _, k := range []string{"keep", "nokeep"} {
+			for _, e := range []string{"eager", "noeager"} {
+				ls = append(ls, "R:"+v+","+k+","+e)
+			}
+		}
+	}
+	ls = append(ls, "Mi:1", "Mi:2", "Mi:11", "Mi:22")
+	return ls
+}
+
+// backup (C20)
+func backupLetters(w *drv.World) []string {
+	nb := countKind(w, "Bk")
+	var ls []string
+	if nb == 0 {
+		ls = pubs(w, 6, 0, 1, 2)
+		ls = append(ls, singleDeletes(w)...)
+		if l := segmentLive(w, -1); len(l) > 0 {
+			ls = append(ls, delLetter(l))
+		}
+		ls = append(ls, "R:")
+	} else {
+		ls = pubs(w, 8, 0, 1, 2)
+	}
+	if nb < 3 {
+		ls = append(ls, "Bk:n", "Bk:pn")
+		if nb > 0 && w.BkClean {
+			ls = append(ls, "Bk:s", "Bk:ps")
+		}
+	}
+	return dedupe(ls)
+}
+
 func init() {
 	Register(&Family{
-		Name:    "core",
-		Cfgs:    []drv.Cfg{cfgBoth},
-		Letters: coreLetters,
-		Depth:   map[string]int{"quick": 5, "thorough": 7},
-		Obs:     drv.ObsAll,
-		KeySet:  []int{0, 1},
+		Name: "core", Cfgs: []drv.Cfg{cfgBoth}, Letters: coreLetters,
+		Depth: map[string]int{"quick": 6, "thorough": 7}, Obs: drv.ObsAll &^ drv.ObsTrim, KeySet: []int{0, 1},
 	})
 	Register(&Family{
-		Name:    "cfg",
-		Cfgs:    []drv.Cfg{cfgNone, cfgKeys, cfgTimes, withVer(cfgBoth, 1)},
-		Letters: coreLetters,
-		Depth:   map[string]int{"quick": 4, "thorough": 6},
-		Obs:     drv.ObsAll,
-		KeySet:  []int{0, 1},
+		Name: "cfg", Cfgs: []drv.Cfg{cfgNone, cfgKeys, cfgTimes, withVer(cfgBoth, 1)}, Letters: coreLetters,
+		Depth: map[string]int{"quick": 5, "thorough": 6}, Obs: drv.ObsAll &^ drv.ObsTrim, KeySet: []int{0, 1},
 	})
+	Register(&Family{
+		Name: "tail", Cfgs: append(allIdx(2), allIdx(1)...), Letters: tailLetters,
+		Depth: map[string]int{"quick": 6, "thorough": 8}, Obs: drv.ObsNext | drv.ObsWalk | drv.ObsConsume | drv.ObsGet, KeySet: []int{0, 1},
+	})
+	Register(&Family{
+		Name:    "roll",
+		Cfgs:    []drv.Cfg{withRoll(cfgBoth, 9), withRoll(cfgBoth, 100), withRoll(cfgBoth, 1<<20), withRoll(withVer(cfgBoth, 1), 1), withRoll(cfgBoth, 1)},
+		Letters: rollLetters,
+		Depth:   map[string]int{"quick": 5, "thorough": 7}, Obs: drv.ObsAll &^ drv.ObsTrim, KeySet: []int{0, 1},
+	})
+	Register(&Family{
+		Name: "inputs", Cfgs: []drv.Cfg{withRoll(cfgBoth, 700), withRoll(withVer(cfgBoth, 1), 700)}, Letters: inputLetters(false),
+		Depth: map[string]int{"quick": 3, "thorough": 4}, Obs: drv.ObsAll &^ drv.ObsTrim, KeySet: []int{2, 3, 11, 9, 10, 0},
+	})
+	Register(&Family{
+		Name: "inputs-nt", Cfgs: []drv.Cfg{withRoll(cfgKeys, 700), withRoll(withVer(cfgNone, 1), 400)}, Letters: inputLetters(true),
+		Depth: map[string]int{"quick": 3, "thorough": 4}, Obs: drv.ObsAll &^ drv.ObsTrim, KeySet: []int{2, 3, 11, 9, 10, 0},
+	})
+	Register(&Family{
+		Name: "helpers", Cfgs: []drv.Cfg{cfgBoth, cfgNone}, Letters: helperLetters,
+		Depth: map[string]int{"quick": 4, "thorough": 5}, Obs: drv.ObsAll &^ drv.ObsTrim, KeySet: []int{0, 1},
+	})
+	Register(&Family{
+		Name: "collide", Cfgs: []drv.Cfg{cfgKeys, cfgBoth, withVer(cfgKeys, 1)}, Letters: collideLetters,
+		Depth: map[string]int{"quick": 5, "thorough": 7}, Obs: drv.ObsKey | drv.ObsWalk | drv.ObsNext, KeySet: []int{4, 5, 2, 3, 6, 7},
+	})
+	Register(&Family{
+		Name: "times", Cfgs: []drv.Cfg{cfgTimes, cfgBoth, withVer(cfgTimes, 1)}, Letters: timesLetters,
+		Depth: map[string]int{"quick": 6, "thorough": 8}, Obs: drv.ObsTime | drv.ObsWalk | drv.ObsGet | drv.ObsNext, KeySet: []int{0},
+	})
+	Register(&Family{
+		Name: "ixfiles", Cfgs: append(allIdx(2), withVer(cfgBoth, 1), withVer(cfgNone, 1)), Letters: ixLetters,
+		Depth: map[string]int{"quick": 4, "thorough": 5}, Obs: drv.ObsWalk | drv.ObsNext, KeySet: []int{0, 1},
+		AtClose: func(w *drv.World) { w.CheckIndexFiles(); w.IndexSubsets(false) },
+	})
+	Register(&Family{
+		Name: "ixfiles-all", Cfgs: []drv.Cfg{cfgBoth, withVer(cfgBoth, 1)}, Letters: ixLetters,
+		Depth: map[string]int{"quick": 4, "thorough": 5}, Obs: drv.ObsWalk | drv.ObsNext, KeySet: []int{0, 1},
+		AtClose: func(w *drv.World) { w.CheckIndexFiles(); w.IndexSubsets(true) },
+	})
+	Register(&Family{
+		Name: "del", Cfgs: []drv.Cfg{cfgBoth, withVer(cfgNone, 1), withKeep(cfgKeys, true)}, Letters: delLetters, Leaves: delLeaves,
+		Depth: map[string]int{"quick": 5, "thorough": 6}, Obs: drv.ObsWalk | drv.ObsNext | drv.ObsGet | drv.ObsStat, KeySet: []int{0, 1},
+	})
+	Register(&Family{
+		Name: "trim", Cfgs: []drv.Cfg{cfgBoth, cfgNone, withVer(cfgTimes, 1)}, Letters: timesLetters, Leaves: trimLeaves,
+		Depth: map[string]int{"quick": 4, "thorough": 5}, Obs: drv.ObsTrim | drv.ObsWalk | drv.ObsNext, LeafObs: drv.ObsWalk | drv.ObsNext | drv.ObsStat, KeySet: []int{0},
+	})
+	Register(&Family{
+		Name: "kv", Cfgs: []drv.Cfg{cfgBoth, cfgNone}, Letters: kvLetters(2),
+		Depth: map[string]int{"quick": 4, "thorough": 5}, Obs: drv.ObsWalk | drv.ObsNext | drv.ObsKey, KeySet: []int{0, 1, 2},
+	})
+	Register(&Family{
+		Name: "versions", Cfgs: append(allIdx(1), allIdx(2)...), Letters: versionLetters,
+		Depth: map[string]int{"quick": 4, "thorough": 5}, Obs: drv.ObsAll &^ drv.ObsTrim, KeySet: []int{0, 1},
+		Before: func(w *drv.World) any { return [2]any{w.SnapVersions(), w.Cfg.Keep} },
+		After: func(w *drv.World, letter string, before any) {
+			b := before.([2]any)
+			w.CheckVersionsAfter(letter, b[0].(drv.VerSnap), b[1].(bool))
+		},
+	})
+	Register(&Family{
+		Name: "backup", Cfgs: []drv.Cfg{cfgBoth, withVer(cfgNone, 1)}, Letters: backupLetters,
+		Depth: map[string]int{"quick": 5, "thorough": 6}, Obs: drv.ObsWalk | drv.ObsNext, KeySet: []int{0, 1},
+	})
+}
+
+func ixLetters(w *drv.World) []string {
+	ls := pubs(w, 6, 1, 2)
+	ls = append(ls, singleDeletes(w)...)
+	if l := segmentLive(w, -1); len(l) > 1 {
+		ls = append(ls, delLetter(l))
+	}
+	ls = append(ls, "R:", "R:rec", "R:ro", "RX:all", "Mi:1", "Mi:2")
+	return dedupe(ls)
 }
